@@ -757,6 +757,10 @@ def gen_dialog_case(g, tier, c17=None):
             raw(r, bip, int(bport), ["spec=C02 " + expect_dest("U", "%s:%d" % (ua_ip, w.port_ua))])
             d.pinned = False
             g.count("dlg_bye_answered")
+            if d.kind == "invite" and g.chance(0.5):
+                # the same identifiers are used again (a new INVITE answered with the same tags): the dialog is pinned anew
+                d.backend = None
+                g.count("dlg_repin_after_bye")
     ops.append("pipe state p=0")
     ops.append("pipe end")
     return ops
